@@ -48,13 +48,17 @@ def setup():
     """until the lead appends translate_c03.generate() to Gen/Generated.v: write Gen/GeneratedC03.v from the current source"""
     import translate_c03
     path = os.path.join(vlib.COQ, "Gen", "GeneratedC03.v")
-    gen_v = os.path.join(vlib.COQ, "Gen", "Generated.v")
-    if os.path.exists(gen_v) and "assemble_shape" in open(gen_v).read():
-        return          # the lead has merged the tables into Generated.v
+    tables_v = open(os.path.join(vlib.COQ, "Model", "TopTables.v")).read()
+    if "Gen.GeneratedC03" not in vlib.strip_comments(tables_v):
+        return          # tools/translate.py now appends translate_c03.generate() to Gen/Generated.v and Model/TopTables.v exports that
     try:
         text = translate_c03.standalone(vlib.REPO)
     except Exception as e:      # the shape can no longer be read: the obligation must break, not silently keep an old table
-        text = "(* translate_c03 failed: %s *)\nFrom CA Require Import Model.TopShape.\nDefinition assemble_shape : list TopShape.call := nil.\nDefinition driver_shape : list TopShape.dstep := nil.\n" % (repr(e).replace("*)", "* )"),)
+        text = (translate_c03.HEADER + "(* translate_c03 FAILED on this tree: %s *)\n" % (repr(e).replace("*)", "* )").replace("(*", "( *"),) +
+                "".join("Definition %s : list (string * bool * string * list string) := [].\n" % n for n in ("c03_assemble_pre", "c03_assemble_loop", "c03_assemble_post")) +
+                "Definition c03_err_arm : list string := [].\nDefinition c03_driver_steps : list string := [].\n"
+                "Definition c03_cli_returns_driver_result : bool := false.\nDefinition c03_main_exit_on_err : N := 0%N.\n"
+                "Definition c03_report_message_ops : list string := [].\n")
     old = open(path).read() if os.path.exists(path) else None
     if old != text:
         with open(path, "w") as f:
@@ -508,7 +512,7 @@ def stream_real(chk, lim, real, drv_cases, drv_out, corpus_cases, known):
             if not kn and what.startswith("stdio") and ("panic" in bad or "exit status 101" in bad):
                 kn = known.get("standard_stream_unwritable")
             if kn:
-                chk.known(kn["id"], "%s (real binary, %s): %s" % (kn["class"], prof, bad))
+                chk.known(kn["id"], "%s (real binary, %s) %s %r: %s" % (kn["class"], prof, what, argv_shown[1:], bad))
                 continue
             lim.add("real:" + what.split(":")[0] + ":" + re.sub(r"\d+|[`'\"\[(].*", "", bad)[:50], "customasm(%s) %r [%s] on %s: %s" % (prof, argv_shown[1:], what, c["base"], bad), rep)
         else:
